@@ -66,19 +66,27 @@ func main() {
 	}
 	w.DB.Close()
 	// settle: the janitor of Open removes every file the recovered state does not name
-	db, err = leveldb.Open(w.Stor, w.O)
-	if err != nil {
-		fmt.Fprintln(os.Stderr, "settle open:", err)
-		os.Exit(2)
-	}
-	_, levels := leveldb.VerifVersion(db)
 	live := map[int64]bool{}
-	for _, lv := range levels {
-		for _, t := range lv {
-			live[t.Num] = true
+	ntab := 0
+	for _, f := range w.Stor.Files() {
+		if f.Fd.Type == storage.TypeTable {
+			ntab++
 		}
 	}
-	db.Close()
+	if ntab > 0 || *seed%2 == 0 {
+		db, err = leveldb.Open(w.Stor, w.O)
+		if err != nil {
+			fmt.Fprintln(os.Stderr, "settle open:", err)
+			os.Exit(2)
+		}
+		_, levels := leveldb.VerifVersion(db)
+		for _, lv := range levels {
+			for _, t := range lv {
+				live[t.Num] = true
+			}
+		}
+		db.Close()
+	} // else: a database without tables is settled as it is; Recover then meets the very first journal and manifest
 	settled := true
 	for _, f := range w.Stor.Files() {
 		if f.Fd.Type == storage.TypeTable && !live[f.Fd.Num] {
